@@ -53,6 +53,12 @@ CHECKS = {
  "C19": dict(cat="exploration", tech="bounded-exhaustive input enumeration: all short byte strings + complete one-edit neighbourhood (truncations, all single-byte substitutions, item deletions/duplications, splices) of a generated corpus of v1 and v0 registers",
    text="All byte strings of length <= 3, all 4-byte strings with a dispatching head, and for every register of a corpus generated by the other drivers (every slab kind, inlined/compact/collision shapes, large values, plus accepted version-0 re-encodings): every truncation, every single-byte substitution, CBOR item deletion/duplication and item-boundary splices; oracle: no panic, returns within a 20 s watchdog, allocation per input bounded linearly in input length (batch-measured with drill-down), accessors of decoded slabs and the header queries panic-free; workers run under ulimit -v so a fatal out-of-memory is caught as a violation.",
    note="The property quantifies over all byte strings; only the stated neighbourhood is decided (exploration level, not a proof).", ref="§5 C19"),
+ "C04": dict(cat="model_checking", tech="stateless schedule exploration (iterative context bounding) of the real, on-the-fly instrumented commit code with goroutine interleavings AND Go map iteration orders as controlled choice points",
+   text="For a corpus of histories, worker counts 1-4, both commits: every interleaving of the encoder workers up to the preemption bound x every map iteration order up to the deviation bound (each `range` over a map in package atree is rewritten to iterate an explorer-chosen permutation) must leave registers byte-identical to the canonical one-goroutine execution, the deterministic commit's ledger calls in the canonical ascending (owner,index) sequence, the relaxed commit's calls a permutation of it; the arrays' index-shifting loops under all permutations; re-runs in fresh processes with cold and warmed pools give identical digests.",
+   note="Bounds: <=2 preemptions and <=2 non-canonical map orders (quick), 3/3 (thorough), each scenario under a time budget; the bound every scenario completed is in the evidence. The instrumenter refuses (exit 2) sources with concurrency constructs it does not know.", ref="§5 C04, App. A"),
+ "C16": dict(cat="model_checking", tech="stateless schedule exploration (iterative context bounding) of the real instrumented commit/preload code and of independent clients over shared pools under a cooperative scheduler; free-running -race pass as complement",
+   text="All schedules up to the preemption bound of FastCommit / NondeterministicFastCommit (1-3 workers, corpus of pending write sets, one encode-failure scenario), BatchPreload (12+ registers, 2-3 workers, one undecodable register) and of 2-3 independent clients whose operations collide on the process-wide digester/buffer/type-id pools (deterministic LIFO pool with poison check, scheduling points before and after Get/Put): no deadlock, panic or poison; registers, ledger log, cache, write set and error equal the one-goroutine execution; every client equals its solo run. The same bodies run free under the Go race detector (any report is a violation).",
+   note="Engine self-checks (a lost-update toy and a use-after-Put toy must be found within bound 1) run before every exploration. Memory-model effects below the synchronisation primitives are outside the model.", ref="§5 C16, App. A"),
  "C09": dict(cat="model_checking", tech="explicit-state BFS; independent reachability oracle (storage IDs == reachable IDs) before and after commit",
    text="With the harness disposing of every value handed back, after every transition (and again after commit) the slab IDs held by write set + ledger must equal the IDs reachable from live roots by an independent traversal, each referenced once, one owner per tree; alphabets are biased to auxiliary slabs (externalised values/keys, inline<->standalone children, bulk pops).",
    note="CheckStorageHealth is used only as a second opinion (C20 decides its trustworthiness).", ref="§5 C09"),
@@ -72,6 +78,7 @@ m = {
  },
  "engines": [
    {"name":"vf","path":"harness/vf","serves_properties":sorted(CHECKS.keys()),"kind_free_text":"hand-written explicit-state / stateless explorer driving the real atree API (Go); worker processes, canonical state keys, replay files"},
+   {"name":"vsched+instrument","path":"harness/vsched_src, harness/cmd/instrument","serves_properties":["C04","C16"],"kind_free_text":"cooperative scheduler + go/ast+go/types source rewriter applied through go build -overlay (goroutines, channels, select, WaitGroup, sync.Pool, map range become controlled choice points); deviation-bounded DFS over choice sequences"},
  ],
  "checks": [],
  "not_applicable": [],
